@@ -180,6 +180,19 @@ func (c CurlyRouter) computeWebserviceScore(requestTokens []string, tokens []str
 				if matchesToken, _ := c.regularMatchesPathToken(other, colon, each); !matchesToken {
 					return false, score
 				}
+			} else if closing := strings.Index(other, "}"); closing != -1 && closing < len(other)-1 {
+				// so does a literal suffix after the variable, e.g. {var}.json
+				suffix := other[closing+1:]
+				if len(each) < len(suffix) || !strings.HasSuffix(each, suffix) {
+					return false, score
+				}
+			}
+			score += 1
+		} else if opening, closing := strings.Index(other, "{"), strings.LastIndex(other, "}"); opening > 0 && closing > opening && strings.Index(other, ":") == -1 {
+			// literal prefix (and maybe suffix) around the variable, e.g. prefix{var}
+			prefix, suffix := other[:opening], other[closing+1:]
+			if len(each) < len(prefix)+len(suffix) || !strings.HasPrefix(each, prefix) || !strings.HasSuffix(each, suffix) {
+				return false, score
 			}
 			score += 1
 		} else {
